@@ -512,6 +512,8 @@ def run(run):
         run.count('fact units')
         capacity_rules(run, F, E)
         link_rules(run, F, E)
+        from rules import c09
+        c09.reset_completeness(run, F, E, 'C10.g')
         iterator_rules(run, F, E)
         g2(run, F, E)
         facts.drop(F)
@@ -522,6 +524,7 @@ def run(run):
     run.floor('C10.d', 60)
     run.floor('C10.e', 6)
     run.floor('C10.f', 4)
+    run.floor('C10.g', 4)
     run.explanation = (
         'Necessary structural conditions of the statement: capacity tests dominate every write of task storage and the full path '
         'is write-free; per-path effect sets of linkTask and PlanT::remove (all four neighbour cases); exactly-once count updates; '
